@@ -190,6 +190,11 @@ def judge(E, fs, snap, sizes, expected, protected, layout, shape, tag):
             E.check(not _is_decoy(node.content), tag + ".placed-file-verifies", "%s holds a file none of whose bytes verify against the metafile" % d)
 
 
+def validate(tier, workdir, seed):
+    from harness import c13
+    return c13.validate(tier, workdir, seed + 1)
+
+
 def _replay_hostile(params, model, workdir, seed):
     import io
     import contextlib
